@@ -165,6 +165,30 @@ CHECKS = {
         note="The built-in beta solver is never exercised (it does not terminate on some integer models); the solver is a parameter of the model.",
         technique="Lean 4 theorem (list lemmas + C02) + differential correspondence with scripted solvers",
         ref="§4 C15"),
+    "C16": dict(
+        text=("Model (Model/Json.lean): toJson for every class (incl. Imply's re-negated condition, Xor/XNor/cc.Any/cc.Xor/"
+              "StingyConfigurator shapes) and toAst (the constructor call from_json makes, for the plog and the configurator "
+              "class maps). Theorems (Props/C16.lean): frag_roundtrip — for the fragment variable / AtLeast with any legal sign "
+              "and value / AtMost / Any, nested arbitrarily, from_json(to_json(t)) builds a model that evaluates like t on every "
+              "assignment (uses sgnOf_signJ: the sign written only when it differs from the default reads back as the sign); "
+              "id_written_iff — for every class an explicitly given id is written and a generated one is not. Tie: to_json "
+              "(through json.dumps/loads) and from_json compared with the model for every class incl. configurators; oracle: "
+              "leaves and bounds, evaluation on assignments, explicit ids kept, no id emitted for generated ones, defaults and "
+              "default priorities on named ids."),
+        note="PARTIAL at the theorem level: All, Xor, ExactlyOne, XNor, Imply, Not and the configurator classes are covered by the correspondence and the oracle, not by a theorem. Findings F16a-F16e were found by this check and repaired (five fix: commits).",
+        technique="Lean 4 theorem (mutual induction over the fragment) + differential correspondence (both directions) + round-trip oracle",
+        ref="§4 C16"),
+    "C17": dict(
+        text=("Theorems (Props/C17.lean): unpack_pack, b64_roundtrip (under the assumption that pickle∘gzip∘base64 round-trips, "
+              "unpacking the packed payload gives the same matrix, default priority vector, variables, index and dtype), "
+              "order_matters (the payload's field order is the constructor's argument order), b64_roundtrip_prop. Thin by "
+              "nature. Tie: the real payload is decoded with pickle in the harness and compared field by field, in order, with "
+              "the model's pack; real round trips compared through full structural snapshots (text form, classes, ids, bounds, "
+              "generated-id flags, defaults, priorities; matrix, variables, index, default priority vector, dtype) and queries "
+              "(evaluate; select with a recorder and an exact solver)."),
+        note="pickle / gzip / base64 are assumed, not proved; the assurance is the correspondence.",
+        technique="Lean 4 theorem (thin, codec as a parameter) + field-by-field payload correspondence + round-trip snapshots",
+        ref="§4 C17"),
     "C18": dict(
         text=("Theorems (Props/C18.lean): add_eq_mk (add returns the configurator built from the current rules followed by the new "
               "one under the same id), add_keeps_id, add_refuses / add_accepts (refusal exactly when the rule's id names a "
